@@ -123,24 +123,26 @@ fn moduli(rng: &mut StdRng, thorough: bool) -> Vec<(String, Uint)> {
         ("p4w".to_string(), (Uint::ONE << 255) - Uint::from(19u64)),          // 2^255 - 19
         ("p8w".to_string(), u("801643889160962459503567529599420993581193510766215918385643775834136080985009029500140562854896402036056836567241446409601881132259487327233447")),
         ("p1w61".to_string(), (Uint::ONE << 61) - Uint::ONE),
+        ("p1w31".to_string(), (Uint::ONE << 31) - Uint::ONE), // smallest: carries the 1024-bit scalars
     ];
     let sizes: &[(u32, &str)] = if thorough {
-        &[(64, "c1w"), (128, "c2w"), (192, "c3w"), (256, "c4w"), (320, "c5w"), (384, "c6w"), (448, "c7w"), (500, "c8w"), (40, "c1ws"), (100, "c2ws")]
+        &[(64, "c1w"), (128, "c2w"), (192, "c3w"), (256, "c4w"), (320, "c5w"), (384, "c6w"), (448, "c7w"), (500, "c8w"), (100, "c2ws")]
     } else {
-        &[(64, "c1w"), (128, "c2w"), (256, "c4w"), (500, "c8w"), (100, "c2ws")]
+        &[(64, "c1w"), (128, "c2w"), (256, "c4w"), (500, "c8w")]
     };
     for &(bits, name) in sizes {
-        loop {
-            // product of two odd numbers: composite; top bits set so that the size is exact or one less
-            let a = rand_bits(rng, bits / 2) | Uint::ONE;
-            let b = rand_bits(rng, bits - bits / 2) | Uint::ONE;
-            let n = a * b;
-            if (n % Uint::from(3u64)).is_zero() || n.bits() > 500 {
-                continue;
+        // product of two (probable) primes of half the size: composite without small factors, so that the
+        // documented exceptional cases of the non-unified formulas inside the chain multiplications
+        // (probability about 1/smallest prime factor per operation) stay out of reach
+        let mut pr = |b: u32, rng: &mut StdRng| loop {
+            let c = rand_bits(rng, b) | Uint::ONE;
+            if c > Uint::from(3u64) && crate::gen::probably_prime(rng, &c) {
+                return c;
             }
-            v.push((name.to_string(), n));
-            break;
-        }
+        };
+        let a = pr(bits / 2, rng);
+        let b = pr(bits - bits / 2, rng);
+        v.push((name.to_string(), a * b));
     }
     v
 }
@@ -264,7 +266,7 @@ fn formula_events(cv: &Cv, i: u64, j: u64, out: &mut Out) {
 
 fn scalars64(rng: &mut StdRng, thorough: bool, long: &[u64]) -> Vec<(String, u64)> {
     let mut v: Vec<(String, u64)> = vec![];
-    let step = if thorough { 1 } else { 3 };
+    let step = if thorough { 1 } else { 5 };
     for k in (0..=300u64).step_by(step) {
         v.push(("small".into(), k));
     }
@@ -272,15 +274,17 @@ fn scalars64(rng: &mut StdRng, thorough: bool, long: &[u64]) -> Vec<(String, u64
         v.push(("small".into(), k));
     }
     for j in 0..64 {
-        v.push(("pow2".into(), 1u64 << j));
-        v.push(("pow2m1".into(), (1u64 << j).wrapping_sub(1)));
+        if thorough || [0, 1, 2, 3, 4, 7, 8, 15, 16, 31, 32, 33, 47, 48, 62, 63].contains(&j) {
+            v.push(("pow2".into(), 1u64 << j));
+            v.push(("pow2m1".into(), (1u64 << j).wrapping_sub(1)));
+        }
     }
     v.push(("ones".into(), u64::MAX));
     for i in 1..=32u64 {
         v.push(("top".into(), u64::MAX - (i - 1)));
     }
     for &e in &[32u32, 48, 63] {
-        for i in 0..8u64 {
+        for i in 0..(if thorough { 8u64 } else { 3 }) {
             v.push(("mid".into(), (1u64 << e) + i));
             v.push(("mid".into(), (1u64 << e) - 1 - i));
         }
@@ -290,7 +294,7 @@ fn scalars64(rng: &mut StdRng, thorough: bool, long: &[u64]) -> Vec<(String, u64
         for large in [false, true] {
             let sb = SmoothBase::new(b1, large);
             let (f, _) = ecm::vhook_smooth::blocks(&sb);
-            let take = if thorough { 40 } else { 6 };
+            let take = if thorough { 40 } else { 3 };
             for (i, &x) in f.iter().enumerate() {
                 if i < take || i + take >= f.len() {
                     v.push((format!("smooth{}", b1), x));
@@ -309,7 +313,7 @@ fn scalars64(rng: &mut StdRng, thorough: bool, long: &[u64]) -> Vec<(String, u64
         k = (k << 4 | b) << 4 | c;
         v.push(("longchain".into(), k));
     }
-    for _ in 0..(if thorough { 200 } else { 30 }) {
+    for _ in 0..(if thorough { 200 } else { 20 }) {
         let bits = rng.gen_range(2..=64);
         v.push(("random".into(), rand_bits(rng, bits).digits()[0]));
     }
@@ -322,17 +326,19 @@ fn scalars1024(rng: &mut StdRng, thorough: bool) -> Vec<(String, Uint)> {
     let mut v = vec![];
     let one = Uint::ONE;
     v.push(("ones".to_string(), Uint::MAX));
-    v.push(("zero".to_string(), Uint::ZERO));
+    v.push(("zero".to_string(), Uint::ZERO));  // chainmul only: the chain builder's caller handles 0 itself
     v.push(("one".to_string(), one));
-    for &e in &[1u32, 63, 64, 65, 127, 128, 500, 1000, 1023] {
+    let es: &[u32] = if thorough { &[1, 63, 64, 65, 127, 128, 500, 1000, 1023] } else { &[64, 1023] };
+    for &e in es {
         v.push(("pow2".to_string(), one << e));
         v.push(("pow2m1".to_string(), (one << e) - one));
         v.push(("pow2p".to_string(), (one << e) + Uint::from(0x5bu64)));
     }
-    for i in 0..8u64 {
-        v.push(("top".to_string(), Uint::MAX - Uint::from(i * 37)));
+    for i in 0..(if thorough { 8u64 } else { 2 }) {
+        v.push(("top".to_string(), Uint::MAX - Uint::from(i * 37 + 1)));
     }
-    for i in [900u32, 960, 1019] {
+    let sp: &[u32] = if thorough { &[900, 960, 1019] } else { &[1019] };
+    for &i in sp {
         v.push(("sparse".to_string(), (one << i) | (one << (i - 400))));
         v.push(("sparseneg".to_string(), (one << i) + (one << (i - 300)) - (one << (i / 2))));
     }
@@ -340,14 +346,14 @@ fn scalars1024(rng: &mut StdRng, thorough: bool) -> Vec<(String, Uint)> {
     for &b1 in &[10_000usize, 100_000] {
         let sb = SmoothBase::new(b1, true);
         let (_, l) = ecm::vhook_smooth::blocks(&sb);
-        let take = if thorough { 6 } else { 2 };
+        let take = if thorough { 6 } else { 1 };
         for (i, x) in l.iter().enumerate() {
             if i < take || i + take >= l.len() {
                 v.push((format!("smooth{}", b1), *x));
             }
         }
     }
-    for _ in 0..(if thorough { 40 } else { 6 }) {
+    for _ in 0..(if thorough { 40 } else { 3 }) {
         let bits = rng.gen_range(65..=1024);
         v.push(("random".to_string(), rand_bits(rng, bits)));
     }
@@ -386,7 +392,7 @@ pub fn run(args: &Args) -> i32 {
         out.ev(merge(json!({"op": "chain64", "case": case, "cls": cls, "k": du(*k), "kd": k.to_string()}), r));
     }
     let s1024 = scalars1024(&mut rng, thorough);
-    for (cls, k) in &s1024 {
+    for (cls, k) in s1024.iter().filter(|(_, k)| !k.is_zero()) {
         let case = format!("k1024/{}", k);
         let r = guard(|| json!({"chain": eh::make_addition_chain_long(k).iter().map(|&x| x as i64).collect::<Vec<_>>()}));
         out.ev(merge(json!({"op": "chain1024", "case": case, "cls": cls, "k": dn(k), "kd": k.to_string()}), r));
@@ -394,16 +400,20 @@ pub fn run(args: &Args) -> i32 {
 
     // ---- curves
     let mods = moduli(&mut rng, thorough);
-    let seeds: Vec<u32> = if thorough {
-        vec![2, 3, 4, 7, 11, 40, 1000, 65537, 0x7fff_ffff, rng.gen_range(2..1 << 31)]
-    } else {
-        vec![2, 5, 40, rng.gen_range(2..1 << 31)]
-    };
+    let rs: u32 = rng.gen_range(2..1 << 31);
+    let seeds: Vec<u32> = if thorough { vec![2, 3, 4, 7, 11, 40, 1000, 65537, 0x7fff_ffff, rs] } else { vec![2, 40, rs] };
     let mut small_curves: Vec<Cv> = vec![]; // moduli of at most 2 words: used for the scalar events
     let mut big_curves: Vec<Cv> = vec![];
-    for (name, n) in &mods {
+    for (mi, (name, n)) in mods.iter().enumerate() {
         let words = (n.bits() + 63) / 64;
-        let sd: Vec<u32> = if words > 2 && !thorough { seeds[..2].to_vec() } else { seeds.clone() };
+        // quick: one seed (rotating) for the expensive moduli, two for the small ones
+        let sd: Vec<u32> = if thorough {
+            if words > 4 { seeds[..3].to_vec() } else { seeds.clone() }
+        } else if words > 2 {
+            vec![seeds[mi % seeds.len()]]
+        } else {
+            vec![seeds[mi % seeds.len()], seeds[(mi + 1) % seeds.len()]]
+        };
         for cv in build_curves(name, n, &sd, &mut out) {
             let mut e = cv.base("curve", &cv.name);
             e["g"] = j3(&cv.g);
@@ -416,13 +426,19 @@ pub fn run(args: &Args) -> i32 {
         }
     }
     // ---- formulas
-    let pairs: &[(u64, u64)] = if thorough {
+    let pairs_small: &[(u64, u64)] = if thorough {
         &[(1, 1), (1, 2), (2, 1), (3, 5), (7, 20), (20, 20), (13, 1), (2, 4), (19, 17)]
     } else {
-        &[(1, 1), (1, 2), (3, 5), (20, 7)]
+        &[(1, 1), (1, 2), (20, 7)]
     };
-    for cv in small_curves.iter().chain(big_curves.iter()) {
-        for &(i, j) in pairs {
+    let pairs_big: &[(u64, u64)] = if thorough { &[(1, 1), (1, 2), (3, 5), (20, 7)] } else { &[(1, 2), (7, 7)] };
+    for cv in small_curves.iter() {
+        for &(i, j) in pairs_small {
+            formula_events(cv, i, j, &mut out);
+        }
+    }
+    for cv in big_curves.iter() {
+        for &(i, j) in pairs_big {
             formula_events(cv, i, j, &mut out);
         }
     }
@@ -432,12 +448,16 @@ pub fn run(args: &Args) -> i32 {
     let ncur = small_curves.len() + big_curves.len();
     for (idx, (cls, k)) in s64.iter().enumerate() {
         // big moduli only for a handful of cheap (small) scalars
-        let cv = if *k < 64 && idx % 5 == 0 && !big_curves.is_empty() {
+        let one_w: Vec<&Cv> = small_curves.iter().filter(|c| c.n.bits() <= 64 && c.n.bits() > 32).collect();
+        let two_w: Vec<&Cv> = small_curves.iter().filter(|c| c.n.bits() > 64).collect();
+        let cv: &Cv = if *k < 64 && idx % 5 == 0 && !big_curves.is_empty() {
             &big_curves[idx % big_curves.len()]
+        } else if idx % 4 == 3 && !two_w.is_empty() {
+            two_w[(idx / 4) % two_w.len()]
         } else {
-            &small_curves[idx % nsc]
+            one_w[idx % one_w.len()]
         };
-        let _ = ncur;
+        let _ = (ncur, nsc);
         let j = [1u64, 2, 3, 7, 20][idx % 5];
         let p = cv.mul(j);
         let pm = to_m(&cv.zn, &p);
@@ -454,7 +474,7 @@ pub fn run(args: &Args) -> i32 {
         let c = &cv.c;
         let zn = &cv.zn;
         out.ev(merge(b("chainmul64"), guard(|| json!({"r": j3m(zn, &eh::coords(&c.scalar64_chainmul(*k, &eh::point(&pm))))}))));
-        if idx % 3 == 0 || cls == "top" || cls == "longchain" {
+        if idx % 4 == 0 || cls == "longchain" {
             out.ev(merge(b("dbladd64"), guard(|| json!({"r": j3m(zn, &eh::coords(&c.scalar64_mul_dbladd(*k, &eh::point(&pm))))}))));
         }
         if cv.twisted && cv.n.bits() <= 128 {
@@ -469,7 +489,10 @@ pub fn run(args: &Args) -> i32 {
         }
     }
     // 1024-bit scalars on one-word moduli
-    let one_word: Vec<&Cv> = small_curves.iter().filter(|c| c.n.bits() <= 64).collect();
+    let mut one_word: Vec<&Cv> = small_curves.iter().filter(|c| c.n.bits() <= 32).collect();
+    if one_word.is_empty() {
+        one_word = small_curves.iter().filter(|c| c.n.bits() <= 64).collect();
+    }
     for (idx, (cls, k)) in s1024.iter().enumerate() {
         let cv = one_word[idx % one_word.len()];
         let j = [1u64, 3, 20][idx % 3];
